@@ -243,7 +243,7 @@ def ref_win(fd, fpo, addr, callee, mem, gcps, hasgc):
 class C07(PropBase):
     pid = "C07"
     coq_dirs = ["Base", "Gen", "C06", "C07", "C08", "C09", "C11"]
-    translators = ["c07_walker_args.py", "c07_win_eval.py", "c07_win_line.py"]
+    translators = ["c07_walker_args.py", "c07_win_eval.py", "c07_win_line.py", "c08_tables.py"]
     bins = ["c07"]
     rule = ("case = STACK WIN records (+ optionally one STACK CFI INIT record), lookup address, callee x86 registers, grand-callee "
             "parameter size, memory image; walked (A) by SymbolFile::walk_frame with a 32-bit mock FrameWalker, (B) by one x86 "
@@ -474,6 +474,18 @@ class C07(PropBase):
             regs, mb, mh, gcps = envs[rng.below(2)]
             addA(100, gcps, rng.chance(1, 2), regs, mb, mh, [W("4", 100, 16, 8, rng.choice([0, 4, 8]), rng.choice([0, 4, 12]), "1", prog)])
             dist["random_programs"] += 1
+        # operator grid (second pass of round 5; mutation "operands of `/` swapped" produced no failing input: the pool above
+        # only divides by zero): every binary operator on every ordered pair of a value pool — literals, and the same
+        # values reached through variables — with the result assigned to an output, so that operand order, wrap-around,
+        # the zero / power-of-two guards and unsigned (not signed) division are all observable
+        vals = [0, 1, 3, 4, 7, 16, 1000, 12345678, 1 << 31, (1 << 31) + 5, U32 - 1, U32]
+        for op in ("+", "-", "*", "/", "%", "@"):
+            for l in vals:
+                for r in vals:
+                    regs, mb, mh, gcps = envs[(l + r) % 2]
+                    prog = "$edi %d %d %s =" % (l, r, op) if (l + r) % 3 else "$T1 %d = $T2 %d = $esi $T1 $T2 %s =" % (l, r, op)
+                    addA(100, gcps, True, regs, mb, mh, [W("4", 100, 16, 8, 4, 0, "1", prog)])
+                    dist["operator_grid"] = dist.get("operator_grid", 0) + 1
         # record sets: overlaps, duplicates, inconsistent type / has_program, CFI fallback
         nrs = 5000 if tier == "quick" else 40000
         gp = ["$eip .raSearch ^ = $esp .raSearch 4 + =", "$eip 4096 = $esp 9 =", "$eip .undef 1 + =", "$eip $esp ^ = $esp $esp 4 + = $ebx 1 ="]
